@@ -258,7 +258,7 @@ func init() {
 	parserJudges["C07"] = judgeC07
 	register(&Check{
 		ID:        "C07",
-		QuickSecs: 900, ThoroSecs: 900,
+		QuickSecs: 900, ThoroSecs: 3000,
 		Rule: "input-space exploration, metamorphic: every single-dash token -LETTERS[=v] with LETTERS a string of length 1..Ll over 11 letters (two flags, increment, string, int, a multibyte valued option, a multibyte flag, an undeclared letter, a digit that is a declared flag, a string list, a blank) and v in {none, x, 5, =y, `a b`, empty, `a,b`, a value with a line break} " +
 			"in 8 contexts (alone, followed by a value, followed by an option, after a positional, after a command, after a command and followed by a value, right behind an optional numeric option, right behind a numeric slice with room) x 3 modes x SetMode before/after the commands are declared; the complete outcome of Parse on the token is compared with Parse on its documented rewriting " +
 			"(restricted to the statement's preconditions in Bundling mode); bundles of up to three letters over a command's own and inherited options behind the command name (Bundling); plus every long-only argv of length <= 3 over 15 tokens (one-letter abbreviations of long names and a one-letter optional-value option included) compared across the three modes; distinct_nontrivial = distinct (definition, argv) pairs compared",
